@@ -45,7 +45,20 @@ def drop_worktree(path):
 
 
 def run_suite(tree, jobs=6):
-    """Build + ctest; retries the load-dependent t-db flake (t-db.c:1807 on the unchanged tree)."""
+    """Build + ctest; retries the load-dependent t-db flake (t-db.c:1807 on the unchanged tree).
+    The tests share /tmp/leveldbtest-<uid> unless TEST_TMPDIR is set: use a private one."""
+    tmpd = tree.rstrip("/") + "-testtmp"
+    shutil.rmtree(tmpd, ignore_errors=True)
+    os.makedirs(tmpd)
+    os.environ["TEST_TMPDIR"] = tmpd
+    try:
+        return _run_suite(tree, jobs)
+    finally:
+        shutil.rmtree(tmpd, ignore_errors=True)
+        os.environ.pop("TEST_TMPDIR", None)
+
+
+def _run_suite(tree, jobs=6):
     rc, out = sh("cmake -G Ninja -B _build -DCMAKE_BUILD_TYPE=RelWithDebInfo && cmake --build _build", cwd=tree, timeout=3600)
     if rc != 0:
         return False, "build failed:\n" + out[-3000:]
